@@ -18,6 +18,9 @@ package main
 //     "unresolved", so that a failure of the translator can never hide a site),
 //   - every `go` statement and every `select` statement (scheduling
 //     nondeterminism),
+//   - every assignment (=, op=, ++/--) whose target is a field of a compiler/utils.Params value, an
+//     element of such a field or a field below it (lists `param_writes`/`unreachable_param_writes`):
+//     the configuration must not be written during a compilation,
 //   - every `x, err := f.Readdirnames(n)` / `f.Readdir(n)` (directory order is
 //     file-system dependent; os.ReadDir sorts and is not listed): SortedAfter
 //     when the first later statement of the block that mentions x is one of
@@ -997,6 +1000,19 @@ func msInventory(repo string) (*msResult, error) {
 							}
 							walk(v.Body)
 							return false
+						case *ast.AssignStmt:
+							for _, lhs := range v.Lhs {
+								if v.Tok == token.DEFINE {
+									break
+								}
+								if f := msParamsField(info, lhs); f != "" {
+									record("paramwrite", v, f, "OrderSensitive", "write to utils.Params."+f+": "+types.ExprString(lhs), v)
+								}
+							}
+						case *ast.IncDecStmt:
+							if f := msParamsField(info, v.X); f != "" {
+								record("paramwrite", v, f, "OrderSensitive", "write to utils.Params."+f+": "+types.ExprString(v.X), v)
+							}
 						case *ast.GoStmt:
 							record("go", v, types.ExprString(v.Call.Fun), "OrderSensitive", "go statement", v)
 						case *ast.SelectStmt:
@@ -1093,6 +1109,43 @@ func msInventory(repo string) (*msResult, error) {
 		return a.Func+a.Var < b.Func+b.Var
 	})
 	return res, nil
+}
+
+// msIsParams: t is compiler/utils.Params or a pointer to it.
+func msIsParams(t types.Type) bool {
+	if t == nil {
+		return false
+	}
+	if p, ok := t.(*types.Pointer); ok {
+		t = p.Elem()
+	}
+	n, ok := t.(*types.Named)
+	if !ok || n.Obj() == nil || n.Obj().Pkg() == nil {
+		return false
+	}
+	return n.Obj().Name() == "Params" && strings.HasSuffix(n.Obj().Pkg().Path(), "compiler/utils")
+}
+
+// msParamsField: when the assigned expression is (an element of, or a field below) a field of a
+// utils.Params value, the name of that field; else "".
+func msParamsField(info *types.Info, e ast.Expr) string {
+	for {
+		switch v := e.(type) {
+		case *ast.ParenExpr:
+			e = v.X
+		case *ast.IndexExpr:
+			e = v.X
+		case *ast.StarExpr:
+			e = v.X
+		case *ast.SelectorExpr:
+			if tv, ok := info.Types[v.X]; ok && msIsParams(tv.Type) {
+				return v.Sel.Name
+			}
+			e = v.X
+		default:
+			return ""
+		}
+	}
 }
 
 // lookupTable extracts, for a LookupOnly site over a package-level map
@@ -1236,6 +1289,10 @@ func genMapSites(repo, out string) error {
 		func(s mapSite) bool { return s.Kind == "readdir" && s.Reachable })
 	emit("unreachable_readdir_sites", "the same, not reachable from the roots (information only)",
 		func(s mapSite) bool { return s.Kind == "readdir" && !s.Reachable })
+	emit("param_writes", "assignments to (elements of / fields below) fields of a compiler/utils.Params value in functions reachable from the compile roots: the configuration must be read-only during a compilation (s_expr = field)",
+		func(s mapSite) bool { return s.Kind == "paramwrite" && s.Reachable })
+	emit("unreachable_param_writes", "the same in functions not reachable from the roots (constructors, flag parsing, Close, LoadSymbolIDs; information only)",
+		func(s mapSite) bool { return s.Kind == "paramwrite" && !s.Reachable })
 	// lookup tables
 	sb.WriteString("(* Package-level map literals ranged over by the LookupOnly sites: (key, value) of every\n   entry as text (string constants: their content; other constants: exact value); t_component says\n   which one the loop compares.  table_complete = every entry of the literal was a\n   compile-time constant.  `NoDup` of the entries is the side condition of the LookupOnly class. *)\n")
 	sb.WriteString("Record lookup_table : Type := mkTable {\n  t_pkg : string; t_func : string; t_var : string; t_component : string;\n  t_complete : bool; t_entries : list (string * string) }.\n\n")
